@@ -94,6 +94,12 @@ func (p *TriggerPool) sendJobsForExecution(numJobs int) {
 
 	p.jobsAvailableCond.L.Unlock()
 
+	if p.manager.MaxIterationsReached() {
+		// requests that cannot start only because the iteration limit has been reached are
+		// discarded silently, whoever finds them pending
+		return
+	}
+
 	for range jobsDiscarded {
 		p.manager.activeScenario.RecordDroppedIteration()
 	}
